@@ -8,10 +8,12 @@ pub mod alloc;
 pub mod choices;
 pub mod curves;
 pub mod drive;
+pub mod fixtures;
 pub mod mirror;
 pub mod model;
 pub mod program;
 pub mod props;
+pub mod refgens;
 pub mod runner;
 pub mod scalars;
 pub mod tlog;
@@ -25,6 +27,15 @@ fn main() {
     let seed: u64 = std::env::var("VERIF_SEED").ok().and_then(|s| s.parse().ok()).unwrap_or(0);
     if args.len() >= 4 && args[1] == "replay" {
         std::process::exit(props::replay(&args[2], &args[3]));
+    }
+    if args.len() >= 5 && args[1] == "gens-digest" {
+        println!("{}", props::c12::digest_cli(&args[2], args[3].parse().unwrap(), args[4].parse().unwrap()));
+        return;
+    }
+    if args.len() >= 2 && args[1] == "record-fixtures" {
+        fixtures::record_generators();
+        println!("fixtures written to {}", fixtures::DIR);
+        return;
     }
     if args.len() < 2 {
         eprintln!("usage: verif-harness <ID> <quick|thorough> | replay <ID> <file>");
